@@ -273,6 +273,33 @@ def w_akai_images(pid, tier, seed, job):
         with R.TempImage(img) as path:
             for kind, nm, obj, tb in meta:
                 outs.append(R.ls(path, "A/VOL1/" + nm))
+            # the same listings asked of ONE opened image, repeatedly and after an export: they state the stored values every time
+            import contextlib
+            import io as _io
+            import shutil
+            from smpl_extract.actions import determine_image_type, ls_action, export_samples_to_wav
+            image = determine_image_type(path)
+            again = {}
+            for rnd in range(3):
+                for kind, nm, obj, tb in meta:
+                    buf = _io.StringIO()
+                    with contextlib.redirect_stdout(buf):
+                        rr = M.impl_res(ls_action, image, "A/VOL1/" + nm)
+                    again.setdefault(nm, []).append((rr[0], buf.getvalue()))
+                if rnd == 1:
+                    dest = R.scratch_dir("c20")
+                    try:
+                        with contextlib.redirect_stdout(_io.StringIO()):
+                            M.impl_res(export_samples_to_wav, image, dest)
+                    finally:
+                        shutil.rmtree(dest, ignore_errors=True)
+            R.close_image(image)
+        for (kind, nm, obj, tb), r in zip(meta, outs):
+            if r.exc is None:
+                same = [a == ("ok", r.out) for a in again[nm]]
+                ctx.require("listing of an item repeated on one opened image (before and after an export) prints the same stored values",
+                            {"kind": kind, "name": nm, "body": files[[m[1] for m in meta].index(nm)].body()[:200].hex()}, all(same),
+                            {"rounds_equal_to_first_listing": same, "first": r.out[:300], "later": [a[1][:300] for a, ok in zip(again[nm], same) if not ok][:1]})
         un = M.call_batch("unrender_text", [r.out for r in outs])
         for (kind, nm, obj, tb), r, mv, uv in zip(meta, outs, mres, un):
             mr = M.res(mv)
